@@ -25,6 +25,8 @@ import (
 
 func init() { commands["c03"] = c03Run }
 
+const c03HeaderLimit = 300 * time.Millisecond
+
 var c03Routes = []string{"direct", "http", "https", "socks5", "connectfunc", "upgrade"}
 
 type nameTable struct {
@@ -200,6 +202,7 @@ type c03Case struct {
 	Sched  []string `json:"sched"`
 	Early  bool     `json:"early"`
 	Tearly bool     `json:"tearly"`
+	Pause  bool     `json:"pause"`
 }
 
 var c03Sizes = []int{1, 100, 4097, 32768, 32769, 70001, 1 << 20, 3 << 20}
@@ -323,7 +326,8 @@ func newC03Env(seed int64) *c03Env {
 	sp := startRelaySOCKS5(env.names)
 	env.lns = []net.Listener{hp, hps, sp}
 	for _, r := range c03Routes {
-		fc := fwdCfg{Name: "fwd", Localhost: "allow"}
+		// a short read-header limit: a tunnel must be able to outlive it
+		fc := fwdCfg{Name: "fwd", Localhost: "allow", ReadHeaderTimeout: c03HeaderLimit}
 		switch r {
 		case "http":
 			fc.Upstream = "http://" + addrA
@@ -412,7 +416,7 @@ func c03Run(e *env) {
 }
 
 func (env *c03Env) scenario(idx int, route string, c *c03Case) map[string]any {
-	res := map[string]any{"ok": true, "idx": idx, "route": route, "sched": c.Sched, "early": c.Early, "tearly": c.Tearly}
+	res := map[string]any{"ok": true, "idx": idx, "route": route, "sched": c.Sched, "early": c.Early, "tearly": c.Tearly, "pause": c.Pause}
 	lg := &evlog{}
 	fail := func(why string) {
 		if res["ok"] == true {
@@ -585,6 +589,9 @@ func (env *c03Env) scenario(idx int, route string, c *c03Case) map[string]any {
 			tShut = true
 			waitEOF(cRd, "client")
 		}
+	}
+	if c.Pause {
+		time.Sleep(c03HeaderLimit * 3 / 2)
 	}
 	for i, a := range sched {
 		if (earlyC && i == firstC) || (earlyT && i == firstT) {
